@@ -27,45 +27,38 @@ EPS = 2.0 ** -52
 AMB_ULPS = 16
 
 
-def grid_exact(dt, span):
-    """True when every multiple j*dt, j <= span, is exact in binary64 (dt has a short mantissa: dyadic fractions, small
-    integers). Only then does an implementation working on the time axis (t_j = j*dt compared with 2*tau) see exactly the
-    same boundary coincidences as one working on the sample axis."""
-    return Fraction(float(dt)).numerator.bit_length() + int(span).bit_length() <= 53
-
-
 def quotient_kind(a, dt, mult=1, span=0):
-    """Classify q = mult*a/dt evaluated EXACTLY on the float inputs.
-    ('exact', k): q is the integer k and the time grid up to span+k samples is exact (or a == 0);
-    ('near', k): |q-k| <= AMB_ULPS ulps of k but not 'exact';  ('frac', floor(q))."""
-    q = mult * Fraction(float(a)) / Fraction(float(dt))
-    k = int(round(q))
-    if q == k:
-        return ('exact' if (a == 0 or grid_exact(dt, span + k + 2)) else 'near'), k
-    if abs(q - k) <= Fraction(AMB_ULPS * EPS) * max(1, abs(k)):
+    """Classify the sample count f = (mult*a)/dt AS EVALUATED IN BINARY64 (mult is 1 or 2, so mult*a is exact).
+    ('exact', k): f is the integer k - a whole-sample quantity, decided strictly (the boundary samples of a delayed wave
+                  belong to the record; an implementation that drops one because ITS arithmetic overshoots is wrong);
+    ('near', k):  f is not an integer but within AMB_ULPS ulps of k (0.07/0.01 = 7.000000000000001, 0.29/0.01 =
+                  28.999999999999996): the natural evaluation itself lands off the integer - two-sided;
+    ('frac', floor(f)) otherwise.  `span` is unused (kept for callers)."""
+    f = (float(mult) * float(a)) / float(dt)
+    k = int(round(f))
+    if f == k:
+        return 'exact', k
+    if abs(f - k) <= AMB_ULPS * EPS * max(1, abs(k)):
         return 'near', k
-    return 'frac', int(q // 1)
+    return 'frac', int(f // 1)
+
+
+def _below(a, dt, mult=1):
+    return (float(mult) * float(a)) / float(dt) < int(round((float(mult) * float(a)) / float(dt)))
 
 
 def floor_options(a, dt, mult=1, span=0):
-    """Admissible values of floor(mult*a/dt): one value, or {k-1, k} on an inexact knife edge."""
+    """Admissible values of floor(mult*a/dt): one value; {k-1, k} only when the evaluated quotient lies a few ulps BELOW
+    the integer k (a quotient a few ulps above k floors to k under every evaluation)."""
     kind, k = quotient_kind(a, dt, mult, span)
     if kind == 'near':
-        return sorted(set([max(k - 1, 0), k]))
+        return sorted(set([max(k - 1, 0), k])) if _below(a, dt, mult) else [k]
     return [k]
 
 
 def trunc_options(t, dt):
-    """Admissible values of int(t/dt) for t >= 0: floor of the exact quotient of the given floats; when that quotient lies
-    a few ulps BELOW an integer k (so that the rounded floating-point division lands on k while the exact floor is k-1)
-    both k-1 and k are admissible. Quotients that are exactly k, or a few ulps above k, give k under every evaluation."""
-    q = Fraction(float(t)) / Fraction(float(dt))
-    k = int(round(q))
-    if q == k:
-        return [k]
-    if abs(q - k) <= Fraction(AMB_ULPS * EPS) * max(1, abs(k)):
-        return [k] if q > k else sorted(set([max(k - 1, 0), k]))
-    return [int(q // 1)]
+    """Admissible values of int(t/dt) for t >= 0 (same rule as floor_options)."""
+    return floor_options(t, dt, 1)
 
 
 def edge_options(x, dt, tau):
